@@ -180,11 +180,18 @@ func TestVerifC11(t *testing.T) {
 	// marking: switchovers / repairs that must mark the old / second master
 	for _, v := range []string{"failover_dead_master", "switchover_master_ahead", "second_master",
 		"second_master+StopReplica", "second_master+ChangeSource", "second_master+StartReplica", "second_master+SetOffline"} {
+	  // history: a fresh tree, or one in which an earlier recovery has come and gone (ClearRecovery removes the mark,
+	  // the parent node stays for ever)
+	  for _, parent := range []bool{false, true} {
+		v, parent := v, parent
 		k++
 		if k%sn != si {
 			continue
 		}
 		id := "c11-mark-" + v
+		if parent {
+			id += "+after_earlier_recovery"
+		}
 		hosts := []string{"h1", "h2", "h3"}
 		sc := vScenario{ID: id, Hosts: hosts, Master: "h1", Manager: "h2", W: 1, Base: 3, Req: reqSpec{Kind: "none"}, Policy: "flow", Rounds: 8, Shape: map[string]hostShape{},
 			Cfg: map[string]any{"catchup_timeout": 4}}
@@ -211,6 +218,9 @@ func TestVerifC11(t *testing.T) {
 		markedNow := false
 		var listed []map[string]any
 		res := vRun(t, &sc, vRunOpts{setup: func(s *vSim) {
+			if parent {
+				s.Z.Put(vNS+"/"+pathRecovery, "null")
+			}
 			if strings.HasPrefix(v, "second_master") {
 				s.W.Lock()
 				x := s.W.Hosts["h3"]
@@ -252,6 +262,7 @@ func TestVerifC11(t *testing.T) {
 			out.emit(r)
 		}
 		meta.emit(map[string]any{"scn": id, "scenario": sc})
+	  }
 	}
 	// ---- part 3: the decision table of checkRecovery, cell by cell (Recovery.tla) ----
 	bools := []bool{false, true}
